@@ -117,6 +117,8 @@ def check_model(J, lib, part, item):
     states, repl = smooth_states(mt, item["kind"], item["nstate"])
     if repl:
         part.add("boundary_excluded", repl)
+    if item.get("qpos0_first"):
+        states[0]["qpos"] = np.array(mt.qpos0, float)       # the configuration at which the loop closes exactly
     # smooth lattice: controls strictly inside every ctrlrange, no applied-force toggles needed
     for k, s in enumerate(states):
         s["ctrl"] = np.array([[0.3, -0.6, 0.45][(i + k) % 3] for i in range(mt.nu)])
@@ -292,6 +294,20 @@ def alphabet(thorough):
         it = G.tree_model("constr[%s]" % ",".join(js), par, js, op, limits=True, friction=True, equality=["connect"],
                           tendon="full", actuators=1, sensors=1)
         add(it, desc + ("iter50",), ["fwd"] + (["rev"] if ti == 0 else []), ns)
+    # a loop closed EXACTLY at qpos0 (axis-aligned, exactly representable offsets, anchor computed by the compiler): the connect
+    # and weld residuals are the zero vector at state 0, where a norm without a guarded derivative yields NaN gradients
+    op, desc = o(0, iterations=50)
+    op, desc = op.replace('solver="CG"', 'solver="Newton"'), (desc[0], "Newton") + desc[2:]
+    exact = ('<mujoco>\n  <compiler angle="radian"/>\n%s\n  <worldbody>\n'
+             '    <body name="a" pos="0 0 1"><joint name="j0" type="hinge" axis="0 1 0" damping="0.1"/><geom size="0.05" pos="0.25 0 0"/>\n'
+             '      <body name="b" pos="0.5 0 0"><joint name="j1" type="hinge" axis="0 1 0" damping="0.1"/><geom size="0.05" pos="0.25 0 0"/>\n'
+             '        <body name="c" pos="0.5 0 0"><joint name="j2" type="slide" axis="1 0 0" damping="0.1"/><geom size="0.05"/></body>\n'
+             '      </body>\n    </body>\n  </worldbody>\n'
+             '  <equality><connect name="e0" body1="b" anchor="0.25 0 0"/><weld name="e1" body1="c" body2="a"/></equality>\n'
+             '  <actuator><motor joint="j0" gear="0.5"/></actuator>\n  <sensor><jointpos joint="j1"/></sensor>\n</mujoco>\n') % op
+    add(dict(name="constr-exact-loop[hinge,hinge,slide]", xml=exact, kind="tree", parents=(-1, 0, 1), joints=("hinge", "hinge", "slide"),
+             qpos0_first=True),
+        desc + ("iter50",), ["fwd"], 2)
     scenes = [[("plane", "sphere")]] + ([[("plane", "capsule"), ("sphere", "sphere")]] if thorough else [])
     for ci, pairs in enumerate(scenes):
         op, desc = o(ci * 3 + 2, iterations=50)
